@@ -80,6 +80,11 @@ def streams(tier, rng, P, only=None, cases=None):
                     decl += "Int %s=%d; " % (nm, k)
                     return (rng.choice(["[(%s) ", "[(%s ) ", "[( %s ) "]) if r < 0.85 else "[=%s ") % nm
                 src = re.sub(r"\[(\d+) ", repl, src)
+            if rng.random() < 0.12:
+                # the count (and the brackets / the colon) written in full-width characters
+                fw = lambda t: "".join(chr(ord(ch) + 0xFEE0) if "!" <= ch <= "~" else ch for ch in t)
+                src = re.sub(r"\[(\d+) ", lambda mo: rng.choice(["[", "\uff3b"]) + fw(mo.group(1)) + " ", src)
+                if rng.random() < 0.5: src = src.replace(" : ", " \uff1a ")
             wrap = rng.random()
             if wrap < 0.15:       # inside a macro body
                 src, un = "#A={%s} #A r #A" % src, "#A={%s} #A r #A" % un
